@@ -171,6 +171,14 @@ type fakeStream struct {
 	sawBar     map[int]bool
 	endKind    string
 	trigT      int64 // logical time of the first event that makes the stream end (0 = none yet)
+	// slowClose: the transport's Close does not return at once (a close frame that cannot be flushed yet).
+	// Close marks the stream closed, then parks until the harness has completed two further pool calls,
+	// starts waiting for something, or tears the case down. A pool that holds its lock across the
+	// transport's Close parks every one of those calls, which the call watchdog reports
+	// (added after seeded change C19-5 was missed).
+	slowClose   bool
+	closeParked bool
+	closeAtCall int64
 	wakeS      chan struct{} // closed+replaced whenever something a parked MsgSend/MsgRecv waits for changes
 }
 
@@ -200,9 +208,29 @@ func (fs *fakeStream) Close() error {
 		fs.trigLocked()
 	}
 	fs.kickLocked()
+	if fs.slowClose && !fs.closeParked && !e.torn {
+		fs.closeParked = true
+		fs.closeAtCall = e.callsDone
+		e.slowClosesParked++
+		for !e.torn && e.waiters == 0 && e.callsDone < fs.closeAtCall+2 {
+			ch := e.wake
+			e.mu.Unlock()
+			<-ch
+			e.mu.Lock()
+		}
+		e.slowClosesReturned++
+	}
 	e.mu.Unlock()
 	fs.cancel()
 	return nil
+}
+
+// closeFromOutside is the harness ending the transport (the remote side going away): it never parks.
+func (fs *fakeStream) closeFromOutside() error {
+	fs.e.mu.Lock()
+	fs.slowClose = false
+	fs.e.mu.Unlock()
+	return fs.Close()
 }
 
 func (fs *fakeStream) MsgRecv(msg drpc.Message, _ drpc.Encoding) error {
@@ -388,6 +416,10 @@ type syncWrite struct {
 }
 
 type env struct {
+	callsDone          int64 // completed pool calls made through call() (guarded by mu)
+	waiters            int   // harness goroutines inside waitFor: parked slow Closes may return (guarded by mu)
+	slowClosesParked   int
+	slowClosesReturned int
 	c    *lib.Case
 	pool streampool.StreamPool
 	q    int
@@ -543,6 +575,16 @@ func (e *env) fatalSeen() bool {
 // waitFor waits until pred (evaluated under e.mu) holds. It returns false when
 // the watchdog fired or the pool's fatal path was hit.
 func (e *env) waitFor(pred func() bool) bool {
+	// whatever the harness waits for may depend on a stream's end: parked slow Closes return now
+	e.mu.Lock()
+	e.waiters++
+	e.notifyLocked()
+	e.mu.Unlock()
+	defer func() {
+		e.mu.Lock()
+		e.waiters--
+		e.mu.Unlock()
+	}()
 	t := time.NewTimer(waitWatchdog)
 	defer t.Stop()
 	for {
@@ -600,6 +642,10 @@ func (e *env) call(kind string, f func() error) (err error, ok bool) {
 		if r.panicked {
 			return nil, false
 		}
+		e.mu.Lock()
+		e.callsDone++
+		e.notifyLocked()
+		e.mu.Unlock()
 		return r.err, true
 	case <-e.fatalCh:
 		return nil, false
